@@ -645,6 +645,8 @@ func ruleR9(c *Ctx) *RuleResult {
 				}
 			} else if o := a.reach(a.get(x)); o.onlyFresh() && len(o) > 0 && fedByOwnIterator(p, to.fn, x) {
 				stB, factsB = Discharged, "(ii) fresh map filled from the receiver's own iterator (Key(), Value())"
+			} else if o := a.reach(a.get(x)); o.onlyFresh() && len(o) > 0 && fedByNodeChain(c, ms, to.fn) {
+				stB, factsB = Discharged, "(ii') fresh map filled by walking the nodes with the very calls the own iterator's Next() makes (first node, then successor until nil), storing each node's Key and Value"
 			} else if _, isSlice := x.(*ssa.Slice); isSlice {
 				stB, factsB = Violated, "json.Marshal of a re-sliced storage field: marshals physical storage (the logical view needs other fields such as start/size)"
 			} else {
@@ -965,6 +967,88 @@ func fedByOwnIterator(p *Prog, fn *ssa.Function, x ssa.Value) bool {
 		}
 	}
 	return n > 0
+}
+
+// fedByNodeChain: ToJSON fills its map in a loop `for n := first(recv); n != nil; n = succ(n) { m[n.Key] = n.Value }` where
+// first and succ are, callee and constant arguments alike, the calls the own iterator's Next() stores into its node cursor.
+func fedByNodeChain(c *Ctx, ms map[string]*ssa.Function, fn *ssa.Function) bool {
+	p := c.p
+	itf := ms["Iterator"]
+	if itf == nil {
+		return false
+	}
+	itNext := methodsOf(p, namedOf(itf.Signature.Results().At(0).Type()))["Next"]
+	if itNext == nil {
+		return false
+	}
+	gc := c.GC(fn)
+	if gc.Undecided != "" || len(gc.GCs) != 3 {
+		return false
+	}
+	sig := func(t *Term) string {
+		if t.Op != "call" {
+			return ""
+		}
+		s := t.Leaf
+		for _, a := range t.Args {
+			if a.Op == "#" {
+				s += " " + a.String()
+			}
+		}
+		return s
+	}
+	var first, succ string
+	loopOK, exitOK := false, false
+	for _, g := range gc.GCs {
+		switch {
+		case g.From == 0:
+			if g.Exit.Op != "goto" || len(g.Exit.Args) != 1 || len(g.Guards) != 0 {
+				return false
+			}
+			first = sig(g.Exit.Args[0])
+			if !g.Exit.Args[0].any(func(t *Term) bool { return t.String() == "p:0" }) {
+				return false
+			}
+		case g.Exit.Op == "goto":
+			phi := "φ:" + g.Exit.Leaf + ".0"
+			if len(g.Guards) != 1 || noEpoch(g.Guards[0]) != "(!= #:nil "+phi+")" || len(g.Effects) != 1 || g.Effects[0].Op != "mapset" || len(g.Effects[0].Args) != 3 || len(g.Exit.Args) != 1 {
+				return false
+			}
+			if noEpoch(g.Effects[0].Args[1]) != "(load (fa:Key "+phi+"))" || noEpoch(g.Effects[0].Args[2]) != "(load (fa:Value "+phi+"))" {
+				return false
+			}
+			succ = sig(g.Exit.Args[0])
+			if !g.Exit.Args[0].any(func(t *Term) bool { return t.String() == phi }) {
+				return false
+			}
+			loopOK = true
+		default:
+			if len(g.Effects) != 0 || len(g.Guards) != 1 || g.Guards[0].Op != "==" {
+				return false
+			}
+			exitOK = true
+		}
+	}
+	if !loopOK || !exitOK || first == "" || succ == "" {
+		return false
+	}
+	hasFirst, hasSucc := false, false
+	for _, g := range c.GC(itNext).GCs {
+		for _, ef := range g.Effects {
+			ef.any(func(t *Term) bool {
+				if s := sig(t); s != "" {
+					if s == first {
+						hasFirst = true
+					}
+					if s == succ {
+						hasSucc = true
+					}
+				}
+				return false
+			})
+		}
+	}
+	return hasFirst && hasSucc
 }
 
 // ---- R6 MAPNONNIL ----
